@@ -1710,6 +1710,39 @@ async fn guards_case(cfg: &Cfg, st: &mut Stats) -> Result<(), String> {
             state.shutdown().await;
         }
     }
+    // 1b. the same after the bound databases were closed by the admin (db.close unregisters a
+    //     database but keeps its key binding): a keyless restart must still be refused, or - if the
+    //     server comes up - nobody without a key may open or read a bound database
+    for close_which in [vec![&n.b], vec![&n.a, &n.b]] {
+        let w = World::build(spec(cfg, BMode::Keyed, Life::Warm)).await;
+        for db in &close_which {
+            let r = send(&w.app, &Req { path: "/".into(), auth: Some(bearer(&k.admin)), enc: Enc::Json, method: "db.close".into(), params: json!({"name": db}) }).await?;
+            if r.status != 200 {
+                st.inconclusive(format!("guards: admin db.close of a bound database answered {}", r.status));
+            }
+        }
+        w.state.shutdown().await;
+        st.eval();
+        match AppState::connect(w.rec.as_dyn(), server_options(&n.primary, None)).await {
+            Err(_) => st.count("guard_keyless_restart_after_close_refused"),
+            Ok(state) => {
+                st.count("guard_keyless_restart_after_close_started");
+                let app = build_router(state.clone());
+                for db in [&n.a, &n.b] {
+                    let opened = send(&app, &Req { path: "/".into(), auth: None, enc: Enc::Json, method: "db.open".into(), params: json!({"name": db}) }).await?;
+                    let r = probe(&app, None, format!("/{db}"), "db.metadata").await?;
+                    if opened.status == 200 || r.status == 200 {
+                        viol(st,
+                            "C14/guards/keyless_restart_serves_bound_database",
+                            json!({"what": "restarted without an admin key over persisted bindings of CLOSED databases: an anonymous caller opens / reads a bound database",
+                                   "database": db, "closed_before_restart": close_which, "db.open": opened.describe(), "db.metadata": r.describe()}),
+                        );
+                    }
+                }
+                state.shutdown().await;
+            }
+        }
+    }
     // 2. a restart under another admin key: the old admin key is a stranger, bindings still hold
     st.eval();
     let state = AppState::connect(w.rec.as_dyn(), server_options(&n.primary, Some("adm-second-91".into())))
